@@ -1,5 +1,5 @@
 import ast
-from copy import deepcopy
+from copy import copy, deepcopy
 from typing import Any, Dict, List, Optional, Set, Tuple, Union, cast
 
 from graphql import (
@@ -55,6 +55,7 @@ from .constants import (
     DEFAULT_KEYWORD,
     DISCRIMINATOR_KEYWORD,
     FIELD_CLASS,
+    INCLUDE_DIRECTIVE_NAME,
     LIST,
     LITERAL,
     MIXIN_FROM_NAME,
@@ -63,6 +64,7 @@ from .constants import (
     MODEL_REBUILD_METHOD,
     OPTIONAL,
     PYDANTIC_MODULE,
+    SKIP_DIRECTIVE_NAME,
     TYPENAME_ALIAS,
     TYPENAME_FIELD_NAME,
     TYPING_MODULE,
@@ -325,7 +327,11 @@ class ResultTypesGenerator:
                     sub_fields, sub_fragments = self._resolve_selection_set(
                         fragment_def.selection_set, root_type
                     )
-                    fields.extend(sub_fields)
+                    fields.extend(
+                        self._with_conditional_directives(
+                            sub_fields, selection.directives
+                        )
+                    )
                     fragments = fragments.union(sub_fragments)
             elif isinstance(selection, InlineFragmentNode):
                 root_type_value = (
@@ -339,12 +345,35 @@ class ResultTypesGenerator:
                     sub_fields, sub_fragments = self._resolve_selection_set(
                         selection.selection_set, root_type_value
                     )
-                    fields.extend(sub_fields)
+                    fields.extend(
+                        self._with_conditional_directives(
+                            sub_fields, selection.directives
+                        )
+                    )
                     fragments = fragments.union(sub_fragments)
         self._fragments_used_as_mixins = self._fragments_used_as_mixins.union(
             set(fragments)
         )
         return fields, fragments
+
+    @staticmethod
+    def _with_conditional_directives(
+        fields: List[FieldNode], directives: Optional[Tuple[DirectiveNode, ...]]
+    ) -> List[FieldNode]:
+        """Fields of a fragment spread with @skip/@include can be absent."""
+        conditional = tuple(
+            d
+            for d in directives or ()
+            if d.name.value in (INCLUDE_DIRECTIVE_NAME, SKIP_DIRECTIVE_NAME)
+        )
+        if not conditional:
+            return fields
+        conditional_fields = []
+        for field in fields:
+            field_copy = copy(field)
+            field_copy.directives = tuple(field.directives or ()) + conditional
+            conditional_fields.append(field_copy)
+        return conditional_fields
 
     def _get_inline_fragment_root_type(
         self, selection_value: str, root_type: str
